@@ -58,6 +58,7 @@ def warm_quick():
   runs.append(('LinenScope', 'LinenScope_lift_jit.cfg', dict(workers=1, timeout=3000)))
   runs.append(('LinenSetup', 'LinenSetup_mc2.cfg', dict(workers=16, timeout=3000)))
   runs.append(('LinenSetup', 'LinenSetup_jattr.cfg', dict(workers=1, timeout=3000)))
+  runs.append(('LinenSetup', 'LinenSetup_subset.cfg', dict(workers=1, timeout=3000)))
   runs.append(('LinenSetup', 'LinenSetup_f14.cfg', dict(workers=16, coverage=False, timeout=900)))
   for pid, n in ((1, 90), (2, 90), (9, 90), (5, 170)):
     runs.append(('LinenSetup', 'LinenSetup_sim.cfg', dict(workers=1, simulate=n, depth=20, seed=11 + pid, timeout=3000)))
